@@ -551,13 +551,12 @@ func (m *MLDv2MulticastAddressRecord) serializeTo(b gopacket.SerializeBuffer, op
 
 // serializes the auxiliary data of a multicast address record
 func (m *MLDv2MulticastAddressRecord) serializeAuxiliaryDataTo(b gopacket.SerializeBuffer, opts gopacket.SerializeOptions) error {
-	if remainder := len(m.AuxiliaryData) % 4; remainder != 0 {
-		zeroWord := []byte{0x0, 0x0, 0x0, 0x0}
-		m.AuxiliaryData = append(m.AuxiliaryData, zeroWord[:remainder]...)
-	}
+	// The auxiliary data is padded with zeros to a multiple of 32-bit words.
+	// The padding is only written to the buffer, m.AuxiliaryData stays as it is.
+	paddedLen := (len(m.AuxiliaryData) + 3) / 4 * 4
 
 	if opts.FixLengths {
-		auxDataLen := len(m.AuxiliaryData) / 4
+		auxDataLen := paddedLen / 4
 
 		if auxDataLen > math.MaxUint8 {
 			return fmt.Errorf("auxilary data is %d 32-bit words, but the maximum is 255 32-bit words", auxDataLen)
@@ -566,12 +565,13 @@ func (m *MLDv2MulticastAddressRecord) serializeAuxiliaryDataTo(b gopacket.Serial
 		m.AuxDataLen = uint8(auxDataLen)
 	}
 
-	buf, err := b.PrependBytes(len(m.AuxiliaryData))
+	buf, err := b.PrependBytes(paddedLen)
 	if err != nil {
 		return err
 	}
 
-	copy(buf, m.AuxiliaryData)
+	n := copy(buf, m.AuxiliaryData)
+	clear(buf[n:])
 	return nil
 }
 
